@@ -144,8 +144,7 @@ pub fn read_datetime(s: &str, seps: &[u8]) -> Option<Read> {
                     i += 1;
                     secs += digits(b, &mut i, 2)?;
                 }
-                // (an offset within 30 s of +-25:59:59 prints as 26:00 when rounded to the minute)
-                if h > 26 || m > 59 {
+                if h > 25 || m > 59 {
                     return None;
                 }
                 offset = Some(Some(if neg { -secs } else { secs } as i32));
@@ -317,7 +316,7 @@ fn check_timestamp(cx: &mut Ctx, t: i128, r: &mut Rng) {
                 if oback2 != Some(e) {
                     cx.violation("Timestamp/printer-options-with-offset-parse", case, || format!("{}", e), || format!("{:?} from {:?}", oback2, os2));
                 }
-            } else if oback2.is_none() && o.abs() < 93570 && t > MIN_NS + 60 * NS && t < MAX_NS - 60 * NS {
+            } else if oback2.is_none() && t > MIN_NS + 60 * NS && t < MAX_NS - 60 * NS {
                 cx.violation("Timestamp/printer-options-with-offset-rejected", case, || "parses".into(), || os2.clone());
             }
             if back != Some(ts) {
